@@ -26,6 +26,7 @@ def classified : List (String × String × String × String) := [
   ("packages/beff-core/src/frontend/mod.rs", "while lines.last().is_some_and(|line| line.trim().is_empty()) {", "loop", "bounded: consumes a finite list / strictly decreasing index / follows finished definitions only (fix D1)"),
   ("packages/beff-core/src/frontend/mod.rs", "while low < high {", "loop", "bounded: consumes a finite list / strictly decreasing index / follows finished definitions only (fix D1)"),
   ("packages/beff-core/src/lib.rs", "while ctx", "loop", "bounded: the candidate name carries a counter that grows each round, the set of taken names is finite (fix D87)"),
+  ("packages/beff-core/src/lib.rs", "while Self::is_declared_name(all_names, &name) {", "loop", "bounded: every round appends one character to the made-up name, the set of declared names is finite, so some extension is free (fix D107)"),
   ("packages/beff-core/src/lib.rs", "while is_taken(&mangled) {", "loop", "bounded: every round appends one character to the candidate, the set of type names is finite, so some extension is free (fix D90)"),
   ("packages/beff-core/src/lib.rs", "while index < this_parts.len()", "loop", "bounded: consumes a finite list / strictly decreasing index / follows finished definitions only (fix D1)"),
   ("packages/beff-core/src/print/printer.rs", ".expect(\"everything should be resolved by now\");", "invariant", "named schemas are closed under references after extraction"),
